@@ -215,6 +215,7 @@ RULES = [
     ("C19-R4", "the archive test and member conversion cannot panic (P restricted to is_zip_archive / has_extension / to_file_info)",
      lambda ctx: __import__("c10").r1(ctx, only=lambda s: any(s.fn == f or s.fn.startswith(f + "::") for f in
                  ("util::has_extension", "searcher::Searcher::is_zip_archive", "fileinfo::to_file_info")), rule_prefix="archive-")),
+    ("C19-R5", "a member's modification time is the stored wall-clock time, not resolved through the time zone", lambda ctx: r5(ctx)),
 ]
 
 EXPLANATION = (
@@ -230,3 +231,59 @@ EXPLANATION = (
 ASSUMPTIONS = ["rustc's HIR faithfully represents the source; exporter and rule scripts are correct",
                "zip::ZipArchive enumerates each member exactly once for indices 0..len()"]
 NOT_DECIDED = ["zip parsing", "to_local_datetime (with_month/with_day chain on Local::now() is clock dependent)", "rows on real archives"]
+
+
+def r5(ctx):
+    """the stored modification time of a member is its wall-clock time as stored (a zip timestamp has no zone): it is copied
+    field by field and never resolved through the local time zone, where the skipped or repeated hour of a DST switch has
+    no unique answer.  to_local_datetime evaluated (finite interpreter; chrono mocked by contract: a naive date-time is its
+    six fields, Local.with_ymd_and_hms is Ambiguous off midnight) on three stored times"""
+    import interp
+    name = "util::datetime::to_local_datetime"
+    h = ctx.anchor_hir(name)
+    ps = ctx.prog.fns[name]["params"]
+    n = 0
+    for stored in ((2024, 3, 31, 2, 30, 0), (2024, 10, 27, 2, 30, 59), (1999, 12, 31, 23, 59, 58)):
+        def call(node, recv, args, it, env, stored=stored):
+            callee = str(node.get("callee", ""))
+            m = node.get("m")
+            if isinstance(recv, dict) and "__zip" in recv and m in ("year", "month", "day", "hour", "minute", "second"):
+                return (stored[("year", "month", "day", "hour", "minute", "second").index(m)],)
+            if callee.endswith("Local::now") or callee.endswith("Utc::now"):
+                return ({"__naive": [2000, 1, 1, 12, 0, 0]},)
+            if m in ("naive_local", "naive_utc") and isinstance(recv, dict) and "__naive" in recv:
+                return (recv,)
+            if m in ("with_year", "with_month", "with_day", "with_hour", "with_minute", "with_second") and isinstance(recv, dict) and "__naive" in recv and args:
+                f = list(recv["__naive"])
+                f[("with_year", "with_month", "with_day", "with_hour", "with_minute", "with_second").index(m)] = args[0]
+                return (interp.some({"__naive": f}),)
+            if m == "with_ymd_and_hms" and len(args) == 6:
+                dt = {"__naive": list(args)}
+                if tuple(args[3:]) == (0, 0, 0):
+                    return (interp.V("LocalResult::Single", [dt]),)
+                return (interp.V("LocalResult::Ambiguous", [dt, {"__naive": list(args), "__later": True}]),)
+            if callee.endswith("from_ymd_opt") and len(args) == 3:
+                return (interp.some({"__date": list(args)}),)
+            if m == "and_hms_opt" and isinstance(recv, dict) and "__date" in recv and len(args) == 3:
+                return (interp.some({"__naive": recv["__date"] + list(args)}),)
+            if callee.endswith("NaiveDateTime::default") or callee.endswith("Default::default"):
+                return ({"__naive": [1970, 1, 1, 0, 0, 0]},)
+            if callee.endswith("NaiveDateTime::new") and len(args) == 2 and all(isinstance(a, dict) for a in args):
+                return ({"__naive": args[0].get("__date", [0, 0, 0]) + args[1].get("__time", [0, 0, 0])},)
+            if callee.endswith("from_hms_opt") and len(args) == 3:
+                return (interp.some({"__time": list(args)}),)
+            return None
+        n += 1
+        try:
+            got = interp.Interp(call=call, prog=ctx.prog).run(h, {ps[0]["id"]: {"__zip": True}})
+            val = tuple(got["__naive"]) if isinstance(got, dict) and "__naive" in got else got
+            ok = val == stored
+            why = "a member stored at %s gets %s" % (stored, val)
+        except interp.Undecided as e:
+            ok, why = False, "cannot evaluate to_local_datetime: %s" % e
+        ctx.obligation(ok)
+        if not ok:
+            ctx.violation("member-time", ctx.where(name), "the modification time of an archive member must be the stored wall-clock time, field by field (not resolved "
+                          "through the time zone: the hour skipped or repeated at a DST switch has no unique answer there): %s" % why)
+            break
+    ctx.covered("to_local_datetime evaluated on three stored timestamps (two inside DST switches)", n, distinct_keys=["gap", "fold", "ordinary"], exhaustive=True)
